@@ -152,6 +152,12 @@ func (c *SimClock) Now() time.Time {
 		base = 1_700_000_000
 	}
 	c.s.now += 1_000_000_000 // every read advances the clock by one second: a second read is visible
+	if f := c.s.faultsAt[fmt.Sprintf("clock|%d", len(c.Reads)+1)]; f != nil && c.srv == c.s.World.Servers[c.s.World.Order[0]] {
+		var d int64
+		fmt.Sscan(f.Arg, &d)
+		c.jump += d
+		c.s.Fired[f.Kind]++
+	}
 	ns := c.s.now + (c.srv.Spec.ClockSkewS+c.jump)*1_000_000_000
 	t := time.Unix(base, 0).Add(time.Duration(ns))
 	if z := c.srv.Spec.Zone; z != 0 {
@@ -299,7 +305,9 @@ func (w *World) runRequest(t *Task, rs *ReqSpec) {
 		t.Handled, t.Err = srv.Handler(ctx, t.Rec, w.httpReq(rs, nil, rs.Server))
 	case "send":
 		if srv.Actor == nil {
-			panic("sim: send on a server without the federating protocol")
+			// a Social-only Actor has no Send: nothing to run
+			w.s.logEv(Event{Task: t.ID, Srv: rs.Server, Kind: "req.end", ID: rs.Kind, Res: "no-send-on-social-only-actor"})
+			return
 		}
 		body := rs.Body
 		val, err := decodeType(body)
